@@ -29,8 +29,8 @@ CHECKS = {
     ),
     'C02': dict(
         level='exploration',
-        units=[U('^TestC02$', (8, 4000), (16, 40000))],
-        essential_labels=['mixed-store-kinds', 'same-kind-fast-path', 'tree-depth>=2', 'has-zero', 'has-neg', 'recycled-part', 'empty-part', 'decode-merge-edge'],
+        units=[U('^TestC02$', (8, 4000), (16, 40000)), U('^TestC02_StructuredParts$', (3, 6000), (4, 150000))],
+        essential_labels=['mixed-store-kinds', 'same-kind-fast-path', 'tree-depth>=2', 'has-zero', 'has-neg', 'recycled-part', 'empty-part', 'decode-merge-edge', 'structured-parts'],
         assumptions=COMMON_ASSUMPTIONS + ["dyadic bounded weights make every float sum exact, so merged and single-sketch observations are compared bit for bit"],
     ),
     'C03': dict(
